@@ -446,12 +446,20 @@ func (w *tcpDnsResponseWriter) Hijack() {}
 // DNS-over-TCP messages are prefixed with a 2-byte length field.
 // Returns the message, framed byte length, or error. Does not consume data on
 // parse failure.
-func readDnsMsgFromBufio(reader *bufio.Reader, timeout time.Duration, conn net.Conn) (*dnsmessage.Msg, int, error) {
+func readDnsMsgFromBufio(reader *bufio.Reader, timeout time.Duration, conn net.Conn) (_ *dnsmessage.Msg, _ int, err error) {
 	// Set read deadline
 	if timeout > 0 {
 		if err := conn.SetReadDeadline(time.Now().Add(timeout)); err != nil {
 			return nil, 0, err
 		}
+		// A failed read must not leave its deadline armed on the socket: the
+		// caller may fall back to relaying the connection, which would then be
+		// cut as soon as the deadline passes.
+		defer func() {
+			if err != nil {
+				_ = conn.SetReadDeadline(time.Time{})
+			}
+		}()
 	}
 
 	// Peek 2-byte length prefix first (don't consume)
@@ -467,6 +475,12 @@ func readDnsMsgFromBufio(reader *bufio.Reader, timeout time.Duration, conn net.C
 	}
 	if length < 12 {
 		return nil, 0, fmt.Errorf("DNS message too small: %d bytes (min 12)", length)
+	}
+	if int(2+length) > reader.Size() {
+		// Peek could never return such a frame; it would block until the
+		// deadline and leave the timeout stored in the bufio.Reader, from where
+		// it would later cut a relayed connection.
+		return nil, 0, fmt.Errorf("DNS message does not fit the read buffer: %d bytes", length)
 	}
 
 	// Now read and consume the full message (length prefix + data)
